@@ -180,6 +180,9 @@ def step(ins, regs):
         return algopy.expm(regs[ins[1]] * ins[2])
     if op == 'abs':
         return abs(regs[ins[1]])
+    if op == 'umax':
+        a = regs[ins[1]]
+        return np.max(a) if isinstance(a, np.ndarray) else algopy.UTPM.max(a)
     if op == 'svd_full':       # sign/layout invariant use of all three factors: U diag(s) V^T (reconstruction)
         a = regs[ins[1]]
         U, sv, V = algopy.svd(a)
@@ -301,6 +304,9 @@ def precond(ins, regs):
         if op == 'minmax':
             a, b = np.asarray(regs[ins[2]]), np.asarray(regs[ins[3]])
             return a.shape == b.shape and not _is_cplx(a) and not _is_cplx(b) and bool(np.all(np.abs(a - b) >= 0.05))
+        if op == 'umax':
+            v = np.sort(np.ravel(np.asarray(regs[ins[1]])))
+            return not _is_cplx(v) and v.size >= 1 and (v.size == 1 or bool(v[-1] - v[-2] >= 0.05))
         if op == 'tri':
             m = np.asarray(regs[ins[2]])
             return m.ndim == 2
@@ -339,7 +345,7 @@ def _magnitude_ok(v):
 FAMILIES_ALL = ['un', 'un', 'kink', 'special', 'unp', 'bin', 'bin', 'bcast', 'binc', 'binc', 'pow', 'neg', 'get', 'get', 'T', 'reshape',
                 'buf', 'set', 'set', 'rmw', 'rmw', 'sum', 'prod', 'trace', 'dot', 'dot', 'dotc', 'outer', 'inv', 'solve', 'det',
                 'logdet', 'qr', 'chol', 'eigh', 'svd', 'lu', 'fft', 'tile', 'diag', 'symvec']
-FAMILIES_FWD_ONLY = ['unfwd', 'minmax', 'tri', 'abs', 'expm', 'svdfull']
+FAMILIES_FWD_ONLY = ['unfwd', 'minmax', 'tri', 'abs', 'expm', 'svdfull', 'umax']
 FAMILIES_POLY = ['un', 'bin', 'bin', 'bcast', 'binc', 'binc', 'pow', 'neg', 'get', 'get', 'T', 'reshape', 'buf', 'set', 'rmw', 'sum', 'prod',
                  'trace', 'dot', 'dot', 'dotc', 'outer', 'tile', 'diag']
 
@@ -522,7 +528,7 @@ FIRST_INPUT = {'inv': 'regular', 'det': 'regular', 'logdet': 'posdet', 'solve': 
                'chol': 'square', 'eigh': 'gapsym', 'svd': 'svd', 'trace': 'matrix', 'T': 'matrix', 'diag': 'vecorsquare',
                'symvec': 'square', 'outer': 'vector', 'dot': 'vecormat', 'dotc': 'vecormat', 'prod': 'vector', 'tile': 'vecormat',
                'sum': 'vecormat', 'reshape': 'vecormat', 'get': 'vecormat', 'fft': 'vecormat', 'tri': 'matrix',
-               'expm': 'square', 'svdfull': 'svd', 'minmax': 'vecormat', 'kink': 'awayzero', 'abs': 'awayzero'}
+               'expm': 'square', 'svdfull': 'svd', 'minmax': 'vecormat', 'umax': 'vector', 'kink': 'awayzero', 'abs': 'awayzero', 'pow': 'withzeros'}
 
 
 @st.composite
@@ -554,6 +560,9 @@ def _special_input(draw, first, K, max_side):
             a = draw(gen.float_array((n, n), elems, sparse=False))
             mats.append(0.5 * sym + 0.5 * (a - a.T))      # m + m^T == sym
         return np.array(mats)
+    if kind == 'withzeros':
+        shape = draw(st.sampled_from([(), (n,), (2, n)]))
+        return draw(gen.float_array((K,) + shape, st.sampled_from([0.0, 0.0, 1.0, -1.0, 0.5, 2.0, -0.5, 1.5]), sparse=False))
     if kind == 'awayzero':
         shape = draw(st.sampled_from([(), (n,), (2, n)]))
         return draw(gen.float_array((K,) + shape, gen.interval_union((0.1, 2.0), (-2.0, -0.1)), sparse=False))
@@ -707,7 +716,12 @@ def _emit_family(draw, S, fam, allow_set_broadcast=True, allow_ndim_dot=False, a
         return S.try_emit(['binc', opn, a, c, side])
     if fam == 'pow':
         r = draw(st.sampled_from([2, 3, 0, 1] if poly else [2, 3, -1, -2, -3, 0.5, 1.5, -0.5, 2.0, 0, 1, 4]))
-        a = _pick(draw, S, lambda q: real(q) and all(precond(['pow', q, r], S.regs[k]) for k in range(S.K)))
+        a = None
+        if isinstance(r, int) and r >= 2 and draw(st.booleans()):
+            # x**n at a base point that is exactly zero (the kernels special-case it)
+            a = _pick(draw, S, lambda q: real(q) and any(np.any(np.asarray(S.regs[k][q]) == 0) for k in range(1, S.K)))
+        if a is None:
+            a = _pick(draw, S, lambda q: real(q) and all(precond(['pow', q, r], S.regs[k]) for k in range(S.K)))
         if a is None:
             # make an admissible operand: 0.5 + square(reg) is >= 0.5 everywhere
             b = _pick(draw, S, real)
@@ -854,7 +868,16 @@ def _emit_family(draw, S, fam, allow_set_broadcast=True, allow_ndim_dot=False, a
         if a is None:
             return False
         # UTPM.solve requires a 2-D right hand side (it raises a ValueError saying so for vectors)
-        b = _pick(draw, S, lambda r: S.ndim(r) == 2 and S.shape(r)[0] == S.shape(a)[0] and not S.cplx(r))
+        b = None
+        if draw(st.booleans()):
+            # a freshly allocated single-column right-hand side (n,1)
+            v = _pick(draw, S, lambda r: S.ndim(r) == 1 and S.shape(r)[0] == S.shape(a)[0] and not S.cplx(r))
+            if v is not None and S.try_emit(['reshape', v, (S.shape(a)[0], 1)]):
+                b = S.nreg() - 1
+            elif S.try_emit(['dotc', a, np.ones((S.shape(a)[0], 1)), 'r']):
+                b = S.nreg() - 1
+        if b is None:
+            b = _pick(draw, S, lambda r: S.ndim(r) == 2 and S.shape(r)[0] == S.shape(a)[0] and not S.cplx(r))
         if b is None:
             return False
         return S.try_emit(['solve', a, b])
@@ -863,6 +886,8 @@ def _emit_family(draw, S, fam, allow_set_broadcast=True, allow_ndim_dot=False, a
         if a is None:
             return False
         which = draw(st.sampled_from(['qr', 'qr', 'qr_full']))
+        if draw(st.integers(0, 2)) == 0 and S.try_emit(['T', a]):
+            a = S.nreg() - 1       # Fortran-ordered view as operand
         return S.try_emit([which, a, draw(st.sampled_from([0, 1]))])
     if fam == 'svd':
         a = _pick(draw, S, lambda r: S.ndim(r) == 2 and not S.cplx(r))
@@ -919,6 +944,11 @@ def _emit_family(draw, S, fam, allow_set_broadcast=True, allow_ndim_dot=False, a
                 return False
             b = S.nreg() - 1
         return S.try_emit(['minmax', draw(st.sampled_from(['minimum', 'maximum'])), a, b])
+    if fam == 'umax':
+        a = _pick(draw, S, lambda q: real(q) and S.ndim(q) == 1 and all(precond(['umax', q], S.regs[k]) for k in range(S.K)))  # UTPM.max: vectors only (declared)
+        if a is None:
+            return False
+        return S.try_emit(['umax', a])
     if fam == 'tri':
         a = _pick(draw, S, lambda r: S.ndim(r) == 2 and real(r))
         if a is None:
